@@ -45,6 +45,7 @@ type stateRec struct {
 	Adv    []string `json:"adv"`
 	Held   []string `json:"held"`
 	Phase  string   `json:"phase"`
+	Gen    int      `json:"gen"`
 	Steps  int      `json:"steps"`
 }
 
@@ -70,6 +71,8 @@ type rig struct {
 	s    *sess.Session
 	seen int
 	mech string
+	disc chan struct{}
+	nrec int
 }
 
 func newRig(st *stateRec) (*rig, string) {
@@ -84,6 +87,8 @@ func newRig(st *stateRec) (*rig, string) {
 			c.Sasl = sasl.NewExternalClient(extIdentity)
 		}
 	})
+	r.disc = make(chan struct{}, 16)
+	r.s.C.HandleFunc(client.DISCONNECTED, func(*client.Conn, *client.Line) { r.disc <- struct{}{} })
 	if err := r.s.Connect(); err != nil {
 		return nil, err.Error()
 	}
@@ -138,6 +143,8 @@ func render(o *opRec) string {
 		return ":irc.example.net 904 me :SASL authentication failed"
 	case "908":
 		return ":irc.example.net 908 me PLAIN,EXTERNAL :are available SASL mechanisms"
+	case "RECONNECT":
+		return "(the connection ends; Connect again)"
 	}
 	return ""
 }
@@ -155,12 +162,53 @@ func payload(mech string) string {
 	return ""
 }
 
-func (r *rig) apply(e *edge, check bool, universe []string) string {
-	r.s.Srv.SendLines(render(&e.O))
-	if !r.s.Sync(5 * time.Second) {
-		return "the client stopped answering PING after " + e.O.Ev
+// reconnect ends the connection (alternately by the server and by Close) and connects again;
+// it returns the CAP / AUTHENTICATE lines of the new connection's registration burst.
+func (r *rig) reconnect() ([]string, string) {
+	r.nrec++
+	if r.nrec%2 == 1 {
+		r.s.Srv.EOF()
+	} else {
+		go r.s.C.Close()
 	}
-	got := r.newLines()
+	select {
+	case <-r.disc:
+	case <-time.After(5 * time.Second):
+		return nil, "no DISCONNECTED after the connection ended"
+	}
+	if err := r.s.Connect(); err != nil {
+		return nil, "Connect after DISCONNECTED: " + err.Error()
+	}
+	if _, ok := r.s.Srv.WaitLine("USER ", 0, 5*time.Second); !ok {
+		return nil, "no registration burst on the new connection"
+	}
+	r.seen = 0
+	if !r.s.Sync(5 * time.Second) {
+		return nil, "the reconnected client does not answer PING"
+	}
+	var got []string
+	for _, x := range r.newLines() {
+		if strings.HasPrefix(x, "CAP ") || strings.HasPrefix(x, "AUTHENTICATE") {
+			got = append(got, x)
+		}
+	}
+	return got, ""
+}
+
+func (r *rig) apply(e *edge, check bool, universe []string) string {
+	var got []string
+	if e.O.Ev == "reconnect" {
+		var msg string
+		if got, msg = r.reconnect(); msg != "" {
+			return msg
+		}
+	} else {
+		r.s.Srv.SendLines(render(&e.O))
+		if !r.s.Sync(5 * time.Second) {
+			return "the client stopped answering PING after " + e.O.Ev
+		}
+		got = r.newLines()
+	}
 	if !check {
 		return ""
 	}
